@@ -159,6 +159,8 @@ theorem Media.unmarshal_joinLF (l : Str) (ls : List Str) (hc : ∀ x ∈ l :: ls
 /-- a line no `case` of the `switch` matches: unknown tags, comments, blank lines -/
 def Ignorable (u : Str) : Prop := classify dispatch u = none
 
+instance (u : Str) : Decidable (Ignorable u) := inferInstanceAs (Decidable (classify dispatch u = none))
+
 theorem step_ignorable (st : St) {u : Str} (h : Ignorable u) : step C st u = .ok st := by
   unfold Ignorable at h
   simp [step, h]
